@@ -157,7 +157,10 @@ def _check_one(case, ctx):
         # family, summation order otherwise) times the scale of the radicand (2 (180/pi)^2 deg^2 for spreads, O(1) otherwise)
         eps = 3e-5 if "width" in T else 1e-7 if fam == "peakwidth" else 1e-10
         rad = eps * (2.0 * (180.0 / np.pi) ** 2 if name in ("dspr", "fdspr", "dpspr") else 0.1 if name == "gw" else 1.0)
-    msg = ops.compare(ra, rb, rtol, fam, "%s(%s x) vs %s(x)" % (name, T, name), atol_rel=(1e-7 if fam in ("width", "widthf", "peakwidth") else None), radicand=rad)
+    atol_rel = 1e-7 if fam in ("width", "widthf", "peakwidth") else None
+    if name in ("crsd", "momd1", "uss_x", "uss_y_depth"):
+        atol_rel = rtol  # signed sums (sin / cos weights cancel): rounding is relative to the largest magnitude, not to each value
+    msg = ops.compare(ra, rb, rtol, fam, "%s(%s x) vs %s(x)" % (name, T, name), atol_rel=atol_rel, radicand=rad)
     if msg:
         raise Violation("layout:" + T, msg)
     ctx.nt(True)
